@@ -2,8 +2,8 @@ package main
 
 import (
 	"encoding/json"
-	"go/ast"
 	"fmt"
+	"go/ast"
 	"os"
 	"os/exec"
 	"path/filepath"
